@@ -336,3 +336,146 @@ def run(F, inv, summaries, jobs=None, only=None, rules=None, heavy=False):
     with ctx.Pool(jobs) as pool:
         res = pool.map(check_pair, pairs, chunksize=1)
     return res
+
+
+# ------------------------------------------------------------------------------------------------------------------
+# C04, transport layer: what struct-mode decoding (`packet_headers::read_transport`) makes of an unfragmented IP payload
+# agrees with what the slicing cursor makes of it.  The slice decoder is taken from the cursor's own MIR (the
+# `*Slice::from_slice` callee of `SlicedPacketCursor::slice_<proto>`), so a change on either side is seen.
+
+TRANSPORT = [  # (ip number, cursor method, TransportHeader variant, header accessor)
+    (1, "slice_icmp4", "Icmpv4", "header"),
+    (58, "slice_icmp6", "Icmpv6", "header"),
+    (17, "slice_udp", "Udp", "to_header"),
+    (6, "slice_tcp", "Tcp", "to_header"),
+]
+
+
+def cursor_decoder(F, method):
+    b = F.bodies.get("sliced_packet_cursor::SlicedPacketCursor::" + method)
+    if b is None:
+        return None
+    for blk in b["blocks"]:
+        t = blk["term"]
+        if t["t"] == "call":
+            p = t["callee"].get("res") or ""
+            if p.endswith("Slice::from_slice") and p.startswith("transport::"):
+                return p
+    return None
+
+
+def check_transport(a):
+    num, method, variant, hacc = a
+    F = _F
+    S = Sib(F, _INV, _SUMM, depth=7, budget=400000)
+    t0 = time.time()
+    r = {"rule": "transport", "what": "read_transport(ip_number=%d) ~ SlicedPacketCursor::%s" % (num, method), "sp": "",
+         "problems": [], "paths": 0, "ok": 0, "err": 0}
+    try:
+        rt = F.bodies["packet_headers::read_transport"]
+        r["sp"] = rt["span"]
+        dec_path = cursor_decoder(F, method)
+        if dec_path is None:
+            r["problems"].append("the cursor's slice decoder could not be identified")
+            return r
+        dec = F.bodies[dec_path]
+        ty = dec_path.rsplit("::", 1)[0]
+        hfn, pfn = F.bodies.get(ty + "::" + hacc), F.bodies.get(ty + "::payload")
+        if hfn is None or pfn is None:
+            r["problems"].append("accessors of %s not found" % ty)
+            return r
+        I = S.interp()
+        st = State()
+        ipp = I.materialize(st, rt["locals"][1][0], ("tr", 0))
+        adt = F.adts[ipp.path]
+        names = [f["name"] for f in adt["variants"][0]["fields"]]
+        fs = dict(zip(names, ipp.fields))
+        # unfragmented payload of protocol `num`, bounded by the slice
+        ipn = fs["ip_number"]
+        nv = ipn.fields[0]
+        st.add_ge0(nv.lin - num)
+        st.add_ge0(Lin.const(num) - nv.lin)
+        st.assume(f_not(fs["fragmented"].f))
+        P = fs["payload"]
+        ls = fs["len_source"]
+        fin, probs, I = S.run(rt, st, [ipp], I)
+        r["problems"] += probs
+        for (s1, av) in fin:
+            if not s1.feasible():
+                continue
+            ca = S.result_variant(I, s1, av)
+            I2 = S.interp()
+            s2 = s1.fork()
+            fin2, _, I2 = S.run(dec, s2, [P], I2)
+            for (s3, bv) in fin2:
+                if not s3.feasible():
+                    continue
+                r["paths"] += 1
+                cb = S.result_variant(I2, s3, bv)
+                if ca != cb or ca is None:
+                    r["problems"].append("struct decoding returns %s (%s) where slicing returns %s (%s) for the same IP payload" % (
+                        ca, describe_err(F, av) if ca == "Err" else "headers", cb, describe_err(F, bv) if cb == "Err" else "slice"))
+                    continue
+                if ca == "Err":
+                    r["err"] += 1
+                    continue  # (error descriptors: the cursor adds its offset / len source, C07's subject)
+                r["ok"] += 1
+                th, pay = av.fields[0].fields[0], av.fields[0].fields[1]
+                sl = bv.fields[0]
+                oid = ("h", ("tr", "sl"))
+                s3.heap[oid] = sl
+                ref = VRef(0, oid, (), False)
+                s4 = s3.fork()
+                finh, _, Ih = S.run(hfn, s4, [ref])
+                for (s5, hv) in finh:
+                    if not s5.feasible():
+                        continue
+                    # TransportHeader is Option<TransportHeader::X(header)>
+                    got = th
+                    if isinstance(got, VAdt) and got.path == OPTION:
+                        if got.variant != 1:
+                            r["problems"].append("struct decoding yields no transport header")
+                            continue
+                        got = got.fields[0]
+                    if isinstance(got, VAdt) and got.fields:
+                        gadt = F.adts.get(got.path)
+                        vn = gadt["variants"][got.variant]["name"] if got.variant is not None else "?"
+                        if vn != variant:
+                            r["problems"].append("struct decoding yields TransportHeader::%s for ip number %d" % (vn, num))
+                            continue
+                        got = got.fields[0]
+                    for d in S.eq(Ih, s5, got, hv, "header"):
+                        r["problems"].append("transport header differs: " + d)
+                    s6 = s5.fork()
+                    finp, _, Ip = S.run(pfn, s6, [ref])
+                    for (s7, pv) in finp:
+                        if not s7.feasible():
+                            continue
+                        reg = None
+                        for (_, g) in Ip.walk_regions(pay):
+                            reg = g
+                        if reg is None or not isinstance(pv, VRegion):
+                            r["problems"].append("payload range not tracked")
+                            continue
+                        if reg.origin != pv.origin or not S.int_eq(s7, reg.off, pv.off) or not S.int_eq(s7, reg.len, pv.len):
+                            r["problems"].append("payload differs: struct decoding hands out [%s, +%s) of the IP payload, "
+                                                 "slicing [%s, +%s)" % (show_lin(reg.off), show_lin(reg.len),
+                                                                        show_lin(pv.off), show_lin(pv.len)))
+                if len(r["problems"]) > 5:
+                    break
+            if len(r["problems"]) > 5:
+                break
+    except Exception:
+        import traceback
+        r["problems"].append("crash: " + " | ".join(traceback.format_exc().strip().splitlines()[-2:]))
+    r["problems"] = list(dict.fromkeys(r["problems"]))[:5]
+    r["time"] = time.time() - t0
+    return r
+
+
+def run_transport(F, inv, summaries, jobs=None):
+    global _F, _INV, _SUMM
+    _F, _INV, _SUMM = F, inv, summaries
+    ctx = mp.get_context("fork")
+    with ctx.Pool(4) as pool:
+        return pool.map(check_transport, TRANSPORT, chunksize=1)
